@@ -180,7 +180,7 @@ func c08load() *c08material {
 
 var c08kinds = []string{"getblock", "header", "lookup", "account", "txs", "onetx", "shards", "config", "configparams", "libs", "runmethod", "seqno", "mcinfo", "time", "version", "sendmsg", "listtx", "shardinfo", "blockproof", "state"}
 
-var c08muts = []string{"none", "tl-truncate", "tl-mark", "tl-mark", "tl-set32", "boc-flip", "boc-set", "boc-truncate", "ids-short", "ctor-swap", "err-huge", "boc-roots", "boc-roots", "adnl-len"}
+var c08muts = []string{"none", "tl-truncate", "tl-mark", "tl-mark", "tl-set32", "boc-flip", "boc-set", "boc-truncate", "ids-short", "ctor-swap", "err-huge", "boc-roots", "boc-roots", "adnl-len", "adnl-dup"}
 
 // a well-formed bag of cells with one cell and no root
 var c08zeroRootBoc = []byte{0xb5, 0xee, 0x9c, 0x72, 0x01, 0x01, 0x01, 0x00, 0x00, 0x02, 0x00, 0x00}
@@ -482,6 +482,8 @@ func execC08srv(t *testing.T, w *core.World, p *run.Plan, r *run.Result) {
 				if len(out) >= 4 {
 					binary.LittleEndian.PutUint32(out, id(others[f.B%len(others)]))
 				}
+			case "adnl-dup":
+				s.DupNext = 1 + f.B%3 // surplus copies of a well-formed answer
 			case "adnl-len":
 				s.LieOuterLen = []int{len(out) + 1, len(out) + 1000, 1<<24 - 1, 254, len(out) + 4}[f.B%5]
 			case "err-huge":
